@@ -18,6 +18,8 @@ Qed.
 Section Dec.
 Variable fin_b : f64 -> bool.
 Variable allow_null : bool.
+(* arrays in the data are admitted only together with schemas whose formats sit next to a type list that accepts arrays (see [local_clean]) *)
+Variable allow_arr : bool.
 Variable OR : oracles.
 Definition finP (f : f64) : Prop := fin_b f = true.
 
@@ -37,17 +39,17 @@ Fixpoint jd_b (fuel : nat) (v : goval) : bool :=
       | VNil => allow_null
       | VBool _ | VStr _ => true
       | VFlt is32 x => negb is32 && fin_b x
-      | VArr _ l => forallb (jd_b f) l
+      | VArr _ l => allow_arr && forallb (jd_b f) l
       | VObj _ m => forallb (fun kv => plain_key_b (fst kv) && jd_b f (snd kv)) m && nodup_b (map fst m)
       | _ => false
       end
   end.
 
-Lemma jd_b_sound : forall fuel v, jd_b fuel v = true -> jd finP allow_null v.
+Lemma jd_b_sound : forall fuel v, jd_b fuel v = true -> jd finP allow_null allow_arr v.
 Proof.
   induction fuel as [|f IH]; intros v H; [discriminate|]. destruct v as [| | |is32 x| | |id l| |id m]; cbn [jd_b] in H; try discriminate; try exact I; try exact H.
   - apply andb_true_iff in H. destruct H as [H1 H2]. apply negb_true_iff in H1. cbn [jd]. split; assumption.
-  - apply jd_arr. apply Forall_forall. intros x Hx. apply IH. apply (proj1 (forallb_forall _ _) H x Hx).
+  - apply andb_true_iff in H. destruct H as [Ha H]. apply jd_arr. split; [exact Ha|]. apply Forall_forall. intros x Hx. apply IH. apply (proj1 (forallb_forall _ _) H x Hx).
   - apply andb_true_iff in H. destruct H as [H1 H2]. apply jd_obj. split; [|apply nodup_b_sound; exact H2].
     apply Forall_forall. intros kv Hkv. pose proof (proj1 (forallb_forall _ _) H1 kv Hkv) as Hk. apply andb_true_iff in Hk. destruct Hk as [Hk1 Hk2].
     split; [apply plain_key_b_sound; exact Hk1 | apply IH; exact Hk2].
@@ -89,7 +91,8 @@ Definition is_nil_b {A} (l : list A) : bool := match l with [] => true | _ => fa
 
 Definition local_clean_b (s : schema) : bool :=
   (negb allow_null || (is_nil_b (s_all_of s) && is_nil_b (s_any_of s) && is_nil_b (s_one_of s) && is_none (s_not s))) &&
-  is_none (s_ref s) && (Z.eqb (s_format s) 0 || (contains k_number (s_types s) || contains k_integer (s_types s))) && negb (s_nullable s) &&
+  is_none (s_ref s) && (Z.eqb (s_format s) 0 || (contains k_number (s_types s) || contains k_integer (s_types s)) ||
+     (contains k_string (s_types s) && (negb allow_arr || contains k_array (s_types s)))) && negb (s_nullable s) &&
   forallb (fun e => jd_b (S (goval_depth e)) e) (s_enum s) &&
   (Z.eqb (s_pattern s) 0 || o_re_ok OR (s_pattern s)) &&
   (* arrays *)
@@ -104,7 +107,7 @@ Definition local_clean_b (s : schema) : bool :=
   (* numbers *)
   (match s_maximum s with Some m => fin_b m | None => true end) && (match s_minimum s with Some m => fin_b m | None => true end).
 
-Lemma local_clean_b_sound s : local_clean_b s = true -> local_clean finP allow_null OR s.
+Lemma local_clean_b_sound s : local_clean_b s = true -> local_clean finP allow_null allow_arr OR s.
 Proof.
   intros H. unfold local_clean_b in H. repeat (apply andb_true_iff in H; let H' := fresh "L" in destruct H as [H H']).
   unfold local_clean, array_clean, object_clean, comp_clean, bounds_fin, nullsafe.
@@ -115,7 +118,12 @@ Proof.
     split; [revert Hb; destruct (s_any_of s); [reflexivity | discriminate]|].
     split; [revert Ho; destruct (s_one_of s); [reflexivity | discriminate] | revert Hc; destruct (s_not s); [discriminate | reflexivity]]. }
   split; [revert L13; destruct (s_ref s); [discriminate | reflexivity]|].
-  split; [apply orb_true_iff in L12; destruct L12 as [E | E]; [left; apply Z.eqb_eq; exact E | right; exact E]|].
+  split.
+  { apply orb_true_iff in L12. destruct L12 as [E | E].
+    - apply orb_true_iff in E. destruct E as [E | E]; [left; apply Z.eqb_eq; exact E | right; left; exact E].
+    - destruct (contains k_number (s_types s) || contains k_integer (s_types s)) eqn:En; [right; left; reflexivity|].
+      right. right. apply andb_true_iff in E. destruct E as [E1 E2]. split; [reflexivity|]. split; [exact E1|].
+      intros Ha. rewrite Ha in E2. exact E2. }
   split; [apply negb_true_iff; exact L11|].
   split; [apply (forallb_Forall _ _ _ (fun e He => jd_b_sound _ e He) L10)|].
   split; [apply orb_true_iff in L9; destruct L9 as [E | E]; [left; apply Z.eqb_eq; exact E | right; exact E]|].
@@ -140,10 +148,10 @@ Fixpoint clean_b (n : nat) (s : schema) {struct n} : bool :=
   | S m => local_clean_b s && kids_b (clean_b m) s
   end.
 
-Theorem clean_b_sound : forall n s, clean_b n s = true -> clean finP allow_null OR n s.
+Theorem clean_b_sound : forall n s, clean_b n s = true -> clean finP allow_null allow_arr OR n s.
 Proof.
   induction n as [|n IH]; intros s H; [discriminate|]. cbn [clean_b] in H. apply andb_true_iff in H. destruct H as [H1 H2].
-  split; [apply local_clean_b_sound; exact H1 | apply (kids_b_sound (clean_b n) (clean finP allow_null OR n) s IH H2)].
+  split; [apply local_clean_b_sound; exact H1 | apply (kids_b_sound (clean_b n) (clean finP allow_null allow_arr OR n) s IH H2)].
 Qed.
 
 End Dec.
@@ -154,6 +162,8 @@ From Verif Require Import Schema.AgreementRef.
 Section DecRef.
 Variable fin_b : f64 -> bool.
 Variable allow_null : bool.
+(* arrays in the data are admitted only together with schemas whose formats sit next to a type list that accepts arrays (see [local_clean]) *)
+Variable allow_arr : bool.
 Variable OR : oracles.
 Variable defs : env.
 Variable K : nat.
@@ -184,12 +194,12 @@ Fixpoint cleanr_b (n : nat) (s : schema) {struct n} : bool :=
   match n with
   | O => false
   | S m => match follow K s with
-           | Some (_, t) => local_clean_b fin_b allow_null OR t && kids_b (cleanr_b m) t
+           | Some (_, t) => local_clean_b fin_b allow_null allow_arr OR t && kids_b (cleanr_b m) t
            | None => false
            end
   end.
 
-Theorem cleanr_b_sound : forall n s, cleanr_b n s = true -> cleanr (finP fin_b) allow_null OR defs K n s.
+Theorem cleanr_b_sound : forall n s, cleanr_b n s = true -> cleanr (finP fin_b) allow_null allow_arr OR defs K n s.
 Proof.
   induction n as [|n IH]; intros s H; [discriminate|]. cbn [cleanr_b] in H.
   destruct (follow K s) as [[k t]|] eqn:Ef; [|discriminate]. apply andb_true_iff in H. destruct H as [H1 H2].
